@@ -15,31 +15,34 @@ import (
 // Dims are the harness dimensions: configuration that is not part of the
 // specification state and over which every behaviour can be replayed.
 type Dims struct {
-	Mode           string   `json:"mode"` // "mem" | "app" | "store"
-	CachePersisted bool     `json:"cachePersisted"`
-	DeferredSort   bool     `json:"deferredSort"`
-	MinMergePct    float64  `json:"minMergePct"`
-	MaxPre         int      `json:"maxPre"`
-	Compaction     string   `json:"compaction"` // "disable" | "allow" | "force"
-	LevelMaxSegs   int      `json:"levelMaxSegs"`
-	LevelMult      int      `json:"levelMult"`
-	NoSync         bool     `json:"noSync"`
-	Sparse         bool     `json:"sparse"` // observe only where the behaviour says so
-	AllocBatches   bool     `json:"allocBatches"`
-	AllocMix       bool     `json:"allocMix"` // with allocBatches: every other operation through the plain Set/Del/Merge
-	NKeys          int      `json:"nkeys"`
-	Paths          []string `json:"paths"`
-	LeakCheck      bool     `json:"leakCheck"` // C15: after everything is closed nothing of the directory may stay open or mapped
-	KeepFiles      bool     `json:"keepFiles"`
-	CloseOrder     string   `json:"closeOrder"`  // "snapsFirst" (default) | "storeFirst": order in which the driver closes what the behaviour left open
-	Preload        []int    `json:"preload"`     // keys the lower level holds (token 9) before the behaviour starts
-	PreloadKids    []string `json:"preloadKids"` // child collection paths (parents first) the lower level holds, each with key 1 = token 9
-	ConcrProfile   string   `json:"concr"`
-	OpOrder        string   `json:"opOrder"`       // "" (ascending keys) | "desc": order in which the operations are put into a batch
-	CompactionPct  float64  `json:"compactionPct"` // StoreOptions.CompactionPercentage (1.0: never "too fragmented" for a partial compaction)
-	Rolling        bool     `json:"rolling"`       // hold a store snapshot and a clean collection snapshot across every persistence round
-	DiskCheck      bool     `json:"diskCheck"`     // after every persistence round: copy the directory, open the copy, compare with the model's store
-	Seed           int64    `json:"seed"`
+	Mode             string   `json:"mode"` // "mem" | "app" | "store"
+	CachePersisted   bool     `json:"cachePersisted"`
+	DeferredSort     bool     `json:"deferredSort"`
+	MinMergePct      float64  `json:"minMergePct"`
+	MaxPre           int      `json:"maxPre"`
+	Compaction       string   `json:"compaction"` // "disable" | "allow" | "force"
+	LevelMaxSegs     int      `json:"levelMaxSegs"`
+	LevelMult        int      `json:"levelMult"`
+	NoSync           bool     `json:"noSync"`
+	Sparse           bool     `json:"sparse"` // observe only where the behaviour says so
+	AllocBatches     bool     `json:"allocBatches"`
+	AllocMix         bool     `json:"allocMix"` // with allocBatches: every other operation through the plain Set/Del/Merge
+	NKeys            int      `json:"nkeys"`
+	Paths            []string `json:"paths"`
+	LeakCheck        bool     `json:"leakCheck"` // C15: after everything is closed nothing of the directory may stay open or mapped
+	KeepFiles        bool     `json:"keepFiles"`
+	CloseOrder       string   `json:"closeOrder"`  // "snapsFirst" (default) | "storeFirst": order in which the driver closes what the behaviour left open
+	Preload          []int    `json:"preload"`     // keys the lower level holds (token 9) before the behaviour starts
+	PreloadKids      []string `json:"preloadKids"` // child collection paths (parents first) the lower level holds, each with key 1 = token 9
+	ConcrProfile     string   `json:"concr"`
+	OpOrder          string   `json:"opOrder"`          // "" (ascending keys) | "desc": order in which the operations are put into a batch
+	CompactionPct    float64  `json:"compactionPct"`    // StoreOptions.CompactionPercentage (1.0: never "too fragmented" for a partial compaction)
+	Rolling          bool     `json:"rolling"`          // hold a store snapshot and a clean collection snapshot across every persistence round
+	IndexMinKeyBytes int      `json:"indexMinKeyBytes"` // StoreOptions.SegmentKeysIndexMinKeyBytes (default 10 MB: no key index on small segments)
+	IndexMaxBytes    int      `json:"indexMaxBytes"`    // StoreOptions.SegmentKeysIndexMaxBytes
+	NoEpilogue       bool     `json:"noEpilogue"`       // skip the idle rounds after the last step
+	DiskCheck        bool     `json:"diskCheck"`        // after every persistence round: copy the directory, open the copy, compare with the model's store
+	Seed             int64    `json:"seed"`
 }
 
 // BNode / Step / Expect mirror the records TLC prints (MossColl!Log).
@@ -107,34 +110,33 @@ const stepTimeout = 20 * time.Second
 
 // Session replays one behaviour.
 type Session struct {
-	D                         Dims
-	C                         *Concr
-	sched                     *Sched
-	coll                      moss.Collection
-	store                     *moss.Store
-	app                       *AppStore
-	dir                       string
-	merge                     *moss.MergeOperatorStringAppend
-	snaps                     map[int]moss.Snapshot
-	onErr                     int
-	policyDiverged            bool // the implementation chose another merge level than the behaviour
-	lastErr                   string
-	closeDone                 chan error
-	refs                      []Content // expectations after each executed batch (TLC's, for prefix checks)
-	refsBeforeReopen          []Content
-	heldStore                 moss.Snapshot
-	heldStoreExp              Content
-	heldStoreOpen             bool
-	prevH                     []int         // section heights TLC expects after the previous step (-1: nil)
-	rollStore, rollColl       moss.Snapshot // rolling snapshots (Dims.Rolling)
-	rollStoreExp, rollCollExp Content
-	openErr                   string
-	leaks                     []Mismatch
-	conformance               []Mismatch
-	partial, full             int // compactions seen by earlier incarnations (before a reopen)
-	life                      string
-	failWrites                int32
-	flog                      *FileLog
+	D                Dims
+	C                *Concr
+	sched            *Sched
+	coll             moss.Collection
+	store            *moss.Store
+	app              *AppStore
+	dir              string
+	merge            *moss.MergeOperatorStringAppend
+	snaps            map[int]moss.Snapshot
+	onErr            int
+	policyDiverged   bool // the implementation chose another merge level than the behaviour
+	lastErr          string
+	closeDone        chan error
+	refs             []Content // expectations after each executed batch (TLC's, for prefix checks)
+	refsBeforeReopen []Content
+	heldStore        moss.Snapshot
+	heldStoreExp     Content
+	heldStoreOpen    bool
+	prevH            []int   // section heights TLC expects after the previous step (-1: nil)
+	roll             []*held // rolling handles (Dims.Rolling)
+	openErr          string
+	leaks            []Mismatch
+	conformance      []Mismatch
+	partial, full    int // compactions seen by earlier incarnations (before a reopen)
+	life             string
+	failWrites       int32
+	flog             *FileLog
 }
 
 func NewSession(d Dims) *Session {
@@ -160,7 +162,8 @@ func (s *Session) collOptions() moss.CollectionOptions {
 func (s *Session) storeOptions() (moss.StoreOptions, moss.StorePersistOptions) {
 	so := moss.StoreOptions{CollectionOptions: s.collOptions(), KeepFiles: s.D.KeepFiles,
 		CompactionLevelMaxSegments: s.D.LevelMaxSegs, CompactionLevelMultiplier: s.D.LevelMult,
-		CompactionPercentage: s.D.CompactionPct}
+		CompactionPercentage:        s.D.CompactionPct,
+		SegmentKeysIndexMinKeyBytes: s.D.IndexMinKeyBytes, SegmentKeysIndexMaxBytes: s.D.IndexMaxBytes}
 	so.OpenFile = s.openFile
 	po := moss.StorePersistOptions{NoSync: s.D.NoSync}
 	switch s.D.Compaction {
@@ -1010,50 +1013,243 @@ func (s *Session) diskCopyCheck(want Content) (out []Mismatch) {
 	return
 }
 
-func (s *Session) closeRolling() {
-	if s.rollStore != nil {
-		s.rollStore.Close()
-		s.rollStore = nil
+// held is one rolling handle: a snapshot with the content TLC gave when it was taken, and an
+// iterator on it that has already been re-positioned backwards (the restart path of SeekTo).
+type held struct {
+	ss   moss.Snapshot
+	exp  Content
+	it   moss.Iterator
+	what string
+}
+
+func (h *held) close() {
+	if h == nil {
+		return
 	}
-	if s.rollColl != nil {
-		s.rollColl.Close()
-		s.rollColl = nil
+	if h.it != nil {
+		h.it.Close()
+		h.it = nil
+	}
+	if h.ss != nil {
+		h.ss.Close()
+		h.ss = nil
 	}
 }
 
-// rolling (C02/C15): a store snapshot taken after every persistence round and a collection
-// snapshot taken when nothing is dirty (its iterators are the lower level's own) are held
-// across the next persistence round -- and across Close -- and fully re-read, seeks
-// included, after every step; the expected content is the one TLC gave when they were taken.
+func (s *Session) closeRolling() {
+	for _, h := range s.roll {
+		h.close()
+	}
+	s.roll = nil
+}
+
+// checkHeldIter re-positions the held iterator at the first key (a backward seek once it has
+// been read) and reads it to the end: exactly the top-level entries of the content it was taken on.
+func (s *Session) checkHeldIter(h *held) (out []Mismatch) {
+	if h.it == nil {
+		return nil
+	}
+	var wantK, wantV [][]byte
+	for i, v := range h.exp[""].M {
+		if v.P {
+			wantK = append(wantK, s.C.Keys[i])
+			wantV = append(wantV, s.C.Bytes(v))
+		}
+	}
+	e := safely(func() error {
+		var gotK, gotV [][]byte
+		if len(wantK) > 0 {
+			if err := h.it.SeekTo(wantK[0]); err != nil && err != moss.ErrIteratorDone {
+				return err
+			}
+		}
+		for n := 0; n < 1000; n++ {
+			k, v, err := h.it.Current()
+			if err != nil {
+				break
+			}
+			gotK, gotV = append(gotK, append([]byte{}, k...)), append(gotV, append([]byte{}, v...))
+			if h.it.Next() != nil {
+				break
+			}
+		}
+		if showKV(gotK, gotV) != showKV(wantK, wantV) {
+			out = append(out, Mismatch{What: h.what + ".helditer", Got: showKV(gotK, gotV), Want: showKV(wantK, wantV)})
+		}
+		return nil
+	})
+	if e != nil {
+		out = append(out, Mismatch{What: h.what + ".helditer.fault", Got: e.Error(), Want: "an open iterator keeps its data readable"})
+	}
+	return
+}
+
+func (s *Session) takeHeld(ss moss.Snapshot, exp Content, what string) *held {
+	if ss == nil {
+		return nil
+	}
+	h := &held{ss: ss, exp: exp, what: what}
+	safely(func() error {
+		it, err := ss.StartIterator(nil, nil, moss.IteratorOptions{})
+		if err == nil && it != nil {
+			h.it = it
+		}
+		return nil
+	})
+	return h
+}
+
+// rolling (C02/C15): after every persistence round a store snapshot is taken, and whenever
+// nothing is dirty a collection snapshot (its iterators are the lower level's own); each is
+// held across the next TWO rounds -- and across Close -- together with an open iterator, and
+// all of them are fully re-read (backward seeks included) after every step against the content
+// TLC gave when they were taken.  When a handle is retired its snapshot is closed first and
+// the iterator read once more: an open iterator alone must keep its data alive.
 func (s *Session) rolling(st Step, exp Expect, r *StepResult) {
 	if !s.D.Rolling {
 		return
 	}
-	if s.rollStore != nil {
-		r.Mismatches = append(r.Mismatches, CheckSnapshot(s.rollStore, s.C, s.rollStoreExp, s.D.Paths, "heldstore.roll")...)
-	}
-	if s.rollColl != nil {
-		r.Mismatches = append(r.Mismatches, CheckSnapshot(s.rollColl, s.C, s.rollCollExp, s.D.Paths, "heldsnap.roll")...)
+	for _, h := range s.roll {
+		r.Mismatches = append(r.Mismatches, CheckSnapshot(h.ss, s.C, h.exp, s.D.Paths, h.what)...)
+		r.Mismatches = append(r.Mismatches, s.checkHeldIter(h)...)
 	}
 	if s.life != "open" || s.coll == nil {
 		return
 	}
 	swap := st.Act == "PersisterSwap"
-	if s.store != nil && (s.rollStore == nil || swap) {
-		if s.rollStore != nil {
-			s.rollStore.Close()
+	count := func(what string) (n int) {
+		for _, h := range s.roll {
+			if h.what == what {
+				n++
+			}
 		}
-		s.rollStore, _ = s.store.Snapshot()
-		s.rollStoreExp = exp.St
+		return
+	}
+	retire := func(what string) { // the oldest handle of that kind
+		for i, h := range s.roll {
+			if h.what == what {
+				if h.ss != nil {
+					h.ss.Close()
+					h.ss = nil
+				}
+				mm := s.checkHeldIter(h)
+				for k := range mm {
+					mm[k].What += ".aftersnapclose"
+				}
+				r.Mismatches = append(r.Mismatches, mm...)
+				h.close()
+				s.roll = append(s.roll[:i:i], s.roll[i+1:]...)
+				return
+			}
+		}
+	}
+	if s.store != nil && (count("heldstore.roll") == 0 || swap) {
+		if count("heldstore.roll") >= 2 {
+			retire("heldstore.roll")
+		}
+		ss, _ := s.store.Snapshot()
+		if h := s.takeHeld(ss, exp.St, "heldstore.roll"); h != nil {
+			s.roll = append(s.roll, h)
+		}
 	}
 	clean := len(exp.H) == 4 && exp.H[0] <= 0 && exp.H[1] <= 0 && exp.H[2] <= 0
-	if s.D.Mode != "mem" && clean && (s.rollColl == nil || swap) {
-		if s.rollColl != nil {
-			s.rollColl.Close()
+	if s.D.Mode != "mem" && clean && (count("heldsnap.roll") == 0 || swap) {
+		if count("heldsnap.roll") >= 2 {
+			retire("heldsnap.roll")
 		}
-		s.rollColl, _ = s.coll.Snapshot()
-		s.rollCollExp = exp.Ref
+		ss, _ := s.coll.Snapshot()
+		if h := s.takeHeld(ss, exp.Ref, "heldsnap.roll"); h != nil {
+			s.roll = append(s.roll, h)
+		}
 	}
+}
+
+// epilogue: idle merger cycles and persistence rounds are stuttering steps of MossColl as far as
+// anything readable is concerned (MergerIngest with a ping ... PersisterSwap of an empty stack
+// leave View = ref).  After the last step of a behaviour that leaves the collection open, every
+// gate is opened, three synchronous merger notifications are sent with the persister drained
+// after each, and everything is read again against the expectation of the last step.
+func (s *Session) epilogue(idx int, last Step) (r StepResult) {
+	r = StepResult{Step: idx, Act: "Epilogue"}
+	s.sched.OpenAll()
+	for i := 0; i < 3; i++ {
+		done := make(chan error, 1)
+		go func() { done <- s.coll.(Notifier).NotifyMerger("mergeAll", true) }()
+		select {
+		case <-done:
+		case <-time.After(stepTimeout):
+			return
+		}
+		deadline := time.Now().Add(stepTimeout)
+		stable := 0
+		for stable < 3 && time.Now().Before(deadline) {
+			cs, err := s.coll.Stats()
+			if err != nil {
+				return
+			}
+			if cs.TotPersisterLowerLevelUpdateBeg == cs.TotPersisterLowerLevelUpdateEnd+cs.TotPersisterLowerLevelUpdateErr && cs.CurDirtyBaseSegments == 0 && cs.CurDirtyTopSegments == 0 {
+				stable++
+			} else {
+				stable = 0
+			}
+			time.Sleep(2 * time.Millisecond)
+		}
+	}
+	exp := last.Exp
+	for i, kb := range s.C.Keys {
+		want := s.C.Bytes(exp.Ref[""].M[i])
+		got, err := s.coll.Get(kb, moss.ReadOptions{})
+		if err != nil {
+			r.Mismatches = append(r.Mismatches, Mismatch{What: "coll.get.err", Key: i + 1, Got: err.Error(), Want: show(want)})
+		} else if !sameBytes(got, want) {
+			r.Mismatches = append(r.Mismatches, Mismatch{What: "coll.get", Key: i + 1, Got: show(got), Want: show(want) + " (after idle rounds)"})
+		}
+	}
+	if ss, err := s.coll.Snapshot(); err == nil {
+		r.Mismatches = append(r.Mismatches, CheckSnapshot(ss, s.C, exp.Ref, s.D.Paths, "snapshot")...)
+		ss.Close()
+	}
+	for id, ss := range s.snaps {
+		if id-1 < len(exp.Snaps) && exp.Snaps[id-1].Open {
+			r.Mismatches = append(r.Mismatches, CheckSnapshot(ss, s.C, exp.Snaps[id-1].C, s.D.Paths, fmt.Sprintf("heldsnap%d", id))...)
+		}
+	}
+	for _, h := range s.roll {
+		r.Mismatches = append(r.Mismatches, CheckSnapshot(h.ss, s.C, h.exp, s.D.Paths, h.what)...)
+		r.Mismatches = append(r.Mismatches, s.checkHeldIter(h)...)
+	}
+	// the rolling handles are retired the way rolling() retires them: snapshot first, then the iterator is
+	// read once more -- after the idle rounds (which, under CompactionAllow, compact into a new file) the
+	// open iterator is the only thing that keeps its file mapped
+	for _, h := range s.roll {
+		if h.ss != nil {
+			h.ss.Close()
+			h.ss = nil
+		}
+		mm := s.checkHeldIter(h)
+		for k := range mm {
+			mm[k].What += ".aftersnapclose"
+		}
+		r.Mismatches = append(r.Mismatches, mm...)
+		h.close()
+	}
+	s.roll = nil
+	// drained: the lower level holds the reference after some prefix of the batches (all of them, unless
+	// the last ones only carry structure: open finding)
+	if s.D.Mode != "mem" {
+		ok := false
+		for j := len(s.refs); j >= 0 && !ok; j-- {
+			c := emptyContent(s.D)
+			if j > 0 {
+				c = s.refs[j-1]
+			}
+			ok = len(s.checkLower(c, "lower")) == 0
+		}
+		if !ok {
+			r.Mismatches = append(r.Mismatches, s.checkLower(exp.Ref, "lower")...)
+		}
+	}
+	return
 }
 
 // checkSkipLL: with SkipLowerLevel (and with and without NoCopyValue) Collection.Get,
@@ -1266,6 +1462,12 @@ func Replay(id int, d Dims, steps []Step) (res Result) {
 		}
 		if sr.Abort {
 			break
+		}
+	}
+	if !bad && len(steps) > 0 && s.life == "open" && s.coll != nil && d.Mode != "mem" && !d.NoEpilogue {
+		if sr := s.epilogue(len(steps), steps[len(steps)-1]); len(sr.Mismatches) > 0 {
+			res.Steps = append(res.Steps, sr)
+			bad = true
 		}
 	}
 	if d.LeakCheck && d.Mode == "store" {
